@@ -74,6 +74,12 @@ func (w *Recorder) Read(p []byte) (int, error) {
 	switch {
 	case w.mode == "short" && len(p) > 5:
 		n, err = w.r.Read(p[:1+k%5]) // a legal short read
+	case w.mode == "zeros" && k%w.at == 0:
+		// the OS source happens to deliver all-zero bytes: they must be used like any others
+		for i := range p {
+			p[i] = 0
+		}
+		n, err = len(p), nil
 	case w.mode == "fail" && k == w.at:
 		n, err = 0, ErrInjected
 	case w.mode == "failpartial" && k == w.at && len(p) > 3:
@@ -120,7 +126,8 @@ var Wrapper *Recorder
 func init() {
 	Orig = rand.Reader
 	// VERIF_EARLYRAND: "1" records; "short" also fragments every read; "fail:N" and
-	// "failpartial:N" make the Nth Read of the process fail (with 0 or 3 bytes).
+	// "failpartial:N" make the Nth Read of the process fail (with 0 or 3 bytes);
+	// "zeros:N" makes every Nth Read deliver all-zero bytes.
 	if v := os.Getenv("VERIF_EARLYRAND"); v != "" {
 		Wrapper = &Recorder{r: Orig}
 		if i := strings.IndexByte(v, ':'); i > 0 {
